@@ -107,6 +107,8 @@ def builtin_no_float(nd: int, use_nd: bool) -> None:
             r = f(v, nd)
         else:
             r = f(v)          # DecStub.__float__ raises: a detour through binary float is an AssertionError here
+        if name in ('int', 'round', 'floor', 'ceil', 'abs'):
+            assert isinstance(r, DecStub), "%s returns a native Python number instead of a Decimal (later arithmetic would be native / binary)" % name
     finally:
         functions.Decimal = saved
     hlib.done()
@@ -172,7 +174,8 @@ def known_identity(x: int) -> None:
     post: True
     """
     hlib.enter(locals())
-    out = run_eval("0.1 + 0.2 == 0.3 and 1.1 * 3 == 3.3 and 2.675 * 100 == 267.5", {}, 100, parser=PARSER)
+    out = run_eval("0.1 + 0.2 == 0.3 and 1.1 * 3 == 3.3 and 2.675 * 100 == 267.5 and floor(1.5) / ceil(9.5) == 0.1 and "
+                   "int(1.2) / round(9.6) == 0.1 and abs(0 - 3) / 10 == 0.3", {}, 100, parser=PARSER)
     assert out[0] == 'ok' and out[1] is True, "binary floating-point error visible in literal arithmetic"
     c = getcontext()
     assert c.prec == 28 and c.rounding == ROUND_HALF_EVEN
@@ -222,3 +225,29 @@ def _chain_case(hi, i, j, k, o1, o2):
     names = {'hostval': RealDecimal(x)}      # (built natively: under the tracer Decimal(...) is CrossHair's model class)
     out = run_eval(text, names, 100, parser=PARSER)
     return (out[0] == 'ok' and Fraction(out[1]) == exact), text
+
+
+FAILING = ["round(1.5, 'x')", "round('1.5', 2)", "0 ** 0", "int('x')", "1 / 0", "floor('a')", "(0 - 8) ** 0.5", "10 ** 1000000", "abs('q')", "sum(['a'])"]
+
+
+def after_failure(fi: int, twice: bool) -> None:
+    """
+    pre: 0 <= fi < 10
+    post: True
+    """
+    # a numeric operation that FAILS leaves no trace: the next evaluation is still exact 28-digit half-even arithmetic
+    hlib.enter(locals())
+    fi = hlib.concrete(fi, 0, 9)
+    with hlib.native():
+        for _ in range(2 if twice else 1):
+            run_eval(FAILING[fi], {}, 100, parser=PARSER)
+        out = run_eval("[1 / 3, 2 / 3 * 3, 1234567890123456789012345678 + 0.5, 2 ** 0.5]", {}, 100, parser=PARSER)
+        want = [RealDecimal(1) / RealDecimal(3), RealDecimal(2) / RealDecimal(3) * 3, RealDecimal('1234567890123456789012345678') + RealDecimal('0.5'),
+                RealDecimal(2) ** RealDecimal('0.5')]
+        c = getcontext()
+        ctx_ok = c.prec == 28 and c.rounding == ROUND_HALF_EVEN
+        ok = out[0] == 'ok' and [str(x) for x in out[1]] == ['0.3333333333333333333333333333', '2.000000000000000000000000000',
+                                                             '1234567890123456789012345678', '1.414213562373095048801688724']
+    assert ctx_ok, "after the failing call %r the decimal context is no longer the default one" % FAILING[fi]
+    assert ok, "after the failing call %r arithmetic is no longer 28-digit half-even: %r" % (FAILING[fi], out[1] if out[0] == 'ok' else out)
+    hlib.done()
